@@ -817,8 +817,12 @@ func okMethodSound(c *Ctx, f *ssa.Function) (bool, string) {
 	for _, b := range f.Blocks {
 		for _, in := range b.Instrs {
 			if call, ok := in.(*ssa.Call); ok {
-				if bi, ok := call.Call.Value.(*ssa.Builtin); ok && bi.Name() == "len" && call.Call.Args[0] == ssa.Value(recv) {
-					whole = true
+				if bi, ok := call.Call.Value.(*ssa.Builtin); ok && bi.Name() == "len" {
+					for _, o := range append([]ssa.Value{call.Call.Args[0]}, origins(call.Call.Args[0])...) {
+						if o == ssa.Value(recv) {
+							whole = true // also through a conversion of the named collection to its slice type
+						}
+					}
 				}
 			}
 		}
